@@ -65,7 +65,7 @@ def make_frame(rng, target_kind, allow_dups=True, perfect=None):
     kinds = {}
     nq = int(rng.integers(3, 9))
     for i in range(nq):
-        pool = ["sig", "sig", "noise", "nan", "mono", "const", "discrete"] + (["dup", "dup"] if allow_dups else [])
+        pool = ["sig", "sig", "noise", "nan", "mono", "const", "discrete", "coarse"] + (["dup", "dup"] if allow_dups else [])
         kind = gen.pick(rng, pool)
         if kind == "sig":
             c = lat * gen.pick(rng, [1, -1]) + rng.normal(0, 1, n) * gen.pick(rng, [0.2, 1, 3])
@@ -83,6 +83,9 @@ def make_frame(rng, target_kind, allow_dups=True, perfect=None):
             c = np.exp(lat / 2 + rng.normal(0, 0.3, n))
         elif kind == "discrete":
             c = np.round(lat * 2 + rng.normal(0, 1, n))
+        elif kind == "coarse":
+            # few integer values: quartiles, fences and the mode all sit on observed values carrying many rows
+            c = np.round(lat * gen.pick(rng, [1.0, 1.5]) + rng.normal(0, 0.5, n)) * gen.pick(rng, [1.0, -1.0])
         else:
             c = rng.normal(0, 1, n)
             kind = "noise"
